@@ -25,6 +25,29 @@ func parseOpt(in string, df int) (*expr.Expression, error) {
 	return lucene.Parse(in)
 }
 
+// topLevel runs the package's two SQL entry points on the text itself (C01: no panic; C10: a
+// non-empty string xor an error, empty SQL with every error; they agree with Parse on acceptance).
+func topLevel(in string, df int, parsed bool) {
+	if rtParam("NOTOP") == 1 { // the widest runs leave the entry points to the narrower ones
+		return
+	}
+	var s, ps string
+	var err, perr error
+	if df == 1 {
+		s, err = lucene.ToPostgres(in, lucene.WithDefaultField("f"))
+		ps, _, perr = lucene.ToParameterizedPostgres(in, lucene.WithDefaultField("f"))
+	} else {
+		s, err = lucene.ToPostgres(in)
+		ps, _, perr = lucene.ToParameterizedPostgres(in)
+	}
+	rtAssert("topostgres-xor", (s != "") != (err != nil))
+	rtAssert("toparam-error-empty", perr == nil || ps == "")
+	rtAssert("toparam-xor", (ps != "") != (perr != nil))
+	if !parsed {
+		rtAssert("rejected-by-all", err != nil && perr != nil)
+	}
+}
+
 // totalityChecks runs every consumer of an accepted expression (C01) and the all-or-nothing
 // result shapes of the renderers (C10).
 func totalityChecks(e *expr.Expression, inputHasMarker bool) {
@@ -70,6 +93,7 @@ func H_ParseBytes() {
 	e, err := parseOpt(in, df)
 	rtAssert("parse-xor", (e != nil) != (err != nil))
 	if err != nil || e == nil {
+		topLevel(in, df, false)
 		rtReach("rejected")
 		return
 	}
@@ -77,6 +101,7 @@ func H_ParseBytes() {
 	rtAssert("validates", expr.Validate(e) == nil)
 	rtAssert("shape", shapeOK(e))
 	totalityChecks(e, hasMarkerChars(in))
+	topLevel(in, df, true)
 	rtReach("end")
 }
 
@@ -95,6 +120,7 @@ func H_ParseTokens() {
 	e, err := parseOpt(in, df)
 	rtAssert("parse-xor", (e != nil) != (err != nil))
 	if err != nil || e == nil {
+		topLevel(in, df, false)
 		rtReach("rejected")
 		return
 	}
@@ -102,12 +128,14 @@ func H_ParseTokens() {
 	rtAssert("validates", expr.Validate(e) == nil)
 	rtAssert("shape", shapeOK(e))
 	totalityChecks(e, hasMarkerChars(in))
+	topLevel(in, df, true)
 	rtReach("end")
 }
 
 var contexts = []string{
 	"f:[# TO 5]", "f:[1 TO #]", "f:{# TO #}", "f:(#)", "(#)", "(#) AND v", "v AND (#)",
 	"NOT #", "f:#", "f:>#", "v #", "# v", "#~2", "#^2", "f:[# TO *]", "-#", "+#", "f:>=#", "v OR #", "v~#", "v^#", "f:(# OR #)", "f:(# OR # OR #)", "#:v", "(#):x*", "#:[1 TO 2]", "f:# AND v",
+	"f:((#):v)", "f:(v OR (#):v)", "f:>((#):v)", "v AND f:((#):x*)", "f:>(#)",
 }
 
 func init() { register("ParseCtx", H_ParseCtx) }
@@ -144,9 +172,11 @@ func H_ParseCtx() {
 	ctx := contexts[rtParam("CTX")]
 	rtTag("ctx=" + ctx)
 	in := ctxInput(ctx, rtParam("S"))
-	e, err := parseOpt(in, rtParam("DF"))
+	df := rtParam("DF")
+	e, err := parseOpt(in, df)
 	rtAssert("parse-xor", (e != nil) != (err != nil))
 	if err != nil || e == nil {
+		topLevel(in, df, false)
 		rtReach("rejected")
 		return
 	}
@@ -154,6 +184,7 @@ func H_ParseCtx() {
 	rtAssert("validates", expr.Validate(e) == nil)
 	rtAssert("shape", shapeOK(e))
 	totalityChecks(e, hasMarkerChars(in))
+	topLevel(in, df, true)
 	rtReach("end")
 }
 
@@ -190,6 +221,16 @@ func H_DeriveTokens() {
 		buf, t = shapeTok(buf, narrowShapes[c])
 		toks = append(toks, t)
 	}
+	if te := rtParam("TAILERR"); te > 0 { // an unterminated phrase or regexp at the end of the input
+		open := []string{"", "\"", "'", "/"}[te]
+		buf = append(buf, ' ')
+		start := len(buf)
+		buf = append(buf, open...)
+		b := rtByte("lit")
+		rtAssume(rtIn(b, lowerCls))
+		buf = append(buf, b)
+		toks = append(toks, dtok{kind: tkErr, raw: string(buf[start:])})
+	}
 	in := string(buf)
 	rtObserve("in", in)
 	e, err := parseOpt(in, df)
@@ -209,6 +250,7 @@ var ctxItems = [][]string{
 	{"NOT", "#"}, {"f", ":", "#"}, {"f", ":", ">", "#"}, {"v", "#"}, {"#", "v"}, {"#", "~", "2"}, {"#", "^", "2"},
 	{"f", ":", "[", "#", "TO", "*", "]"}, {"-", "#"}, {"+", "#"}, {"f", ":", ">", "=", "#"}, {"v", "OR", "#"}, {"v", "~", "#"}, {"v", "^", "#"}, {"f", ":", "(", "#", "OR", "#", ")"}, {"f", ":", "(", "#", "OR", "#", "OR", "#", ")"},
 	{"#", ":", "v"}, {"(", "#", ")", ":", "x*"}, {"#", ":", "[", "1", "TO", "2", "]"}, {"f", ":", "#", "AND", "v"},
+	{"f", ":", "(", "(", "#", ")", ":", "v", ")"}, {"f", ":", "(", "v", "OR", "(", "#", ")", ":", "v", ")"}, {"f", ":", ">", "(", "(", "#", ")", ":", "v", ")"}, {"v", "AND", "f", ":", "(", "(", "#", ")", ":", "x*", ")"}, {"f", ":", ">", "(", "#", ")"},
 }
 
 func fixedTok(s string) dtok {
